@@ -674,6 +674,9 @@ class Fn:
         if path in UNWRAP and args:
             return T(('unwrap', args[0]))
         if path in CLONE and args:
+            sty = (f.get('self_ty') or f.get('resolved', {}).get('self_ty') or '')
+            if sty.startswith(('std::sync::Arc<', 'std::rc::Rc<', 'alloc::sync::Arc<', 'alloc::rc::Rc<')):
+                return args[0]              # a new handle on the same allocation: what is pointed at is the very same value
             return T(('clone', args[0]))
         if path in INDEX and len(args) == 2:
             return T(('index', args[0], args[1]))
